@@ -127,16 +127,17 @@ class Construct(Contract):
 
 
 class Helpers(Contract):
-    """zeros / ones / empty / nans(axes=..., dims=...) and (dims=, shape=): a well-formed array over exactly the axes a
-    DimArray built with the same axes arguments has, filled with 0 / 1 / anything / NaN.  [C05]"""
+    """zeros / ones / empty / nans(axes=..., dims=...), (dims=, shape=) and zeros_like / ones_like / empty_like / nans_like(a): a
+    well-formed array over exactly the axes a DimArray built with the same axes arguments has (a's axes for *_like, a
+    itself untouched and its buffer not shared), filled with 0 / 1 / anything / NaN.  [C05]"""
     target = "dimarray.core.dimarraycls:empty"
     props = ("C05",)
-    inlined = ("empty", "zeros", "ones", "nans", "Axes._init", "DimArray.__init__")
+    inlined = ("empty", "zeros", "ones", "nans", "empty_like", "zeros_like", "ones_like", "nans_like", "Axes._init", "DimArray.__init__")
 
     def cases(self, tier):
         for helper in ("zeros", "ones", "empty", "nans"):
             for rank in (1, 2):
-                for form in ("pairs", "axis-objects", "lists+dims", "dims+shape"):
+                for form in ("pairs", "axis-objects", "lists+dims", "dims+shape", "like"):
                     yield {"name": "%s-r%d-%s" % (helper, rank, form), "helper": helper, "rank": rank, "form": form}
 
     def bound_lengths(self, case):
@@ -157,6 +158,11 @@ class Helpers(Contract):
             return h(axes=[S.da.Axis(l, n) for n, l in zip(names, L)])
         if f == "lists+dims":
             return h(axes=list(L), dims=list(names))
+        if f == "like":
+            # zeros_like(a) / ones_like(a) / empty_like(a) / nans_like(a): over the axes of an existing array, which stays as it was
+            a = S.da.DimArray(S.arraynd("like.data", "f", tuple(S.n(l) for l in L)), axes=[(n, l) for n, l in zip(names, L)])
+            env["like"], env["like_data"] = a, S.snapshot(a.values)
+            return getattr(mod, case["helper"] + "_like")(a)
         return h(dims=tuple(names), shape=tuple(S.n(l) for l in L))
 
     def post(self, S, case, env, result):
@@ -177,6 +183,13 @@ class Helpers(Contract):
             yield "filled", S.forall_nd(shape, lambda *k: S.at(result.values, *k) == fill)
         elif case["helper"] == "nans":
             yield "filled", S.forall_nd(shape, lambda *k: S.isnan(S.at(result.values, *k)))
+        if case["form"] == "like":
+            a = env["like"]
+            yield "like:a-new-array-with-its-own-buffer", S.land(result is not a, S.lnot(S.same_buffer(result.values, a.values)))
+            yield "like:the-model-array-is-untouched", S.land(
+                tuple(a.dims) == tuple(env["names"]), S.forall_nd(shape, lambda *k: S.same(S.at(a.values, *k), S.at(env["like_data"], *k))),
+                *[S.land(S.n(a.axes[d].values) == S.n(env["labels"][d]),
+                         S.forall(0, S.n(env["labels"][d]), lambda k, d=d: S.at(a.axes[d].values, k) == S.at(env["labels"][d], k))) for d in range(rank)])
 
     def canaries(self, S, case, env, result):
         yield "first-dimension-is-empty", S.n(result.axes[0].values) == 0
@@ -447,3 +460,117 @@ def _make_all():
 
 
 WF_CONTRACTS = _make_all()
+
+
+RENAMES = {
+    # name: (rank, how, argument, expected dims | None when the request must be REJECTED)
+    "dims-tuple-fresh": (2, "dims", ("u", "v"), ("u", "v")),
+    "dims-list-fresh": (2, "dims", ["u", "v"], ("u", "v")),
+    "dims-tuple-swap": (2, "dims", ("x1", "x0"), ("x1", "x0")),
+    "dims-tuple-cycle": (3, "dims", ("x1", "x2", "x0"), ("x1", "x2", "x0")),
+    "dims-tuple-one-kept": (3, "dims", ("x0", "w", "x1"), ("x0", "w", "x1")),
+    "dims-tuple-same": (2, "dims", ("x0", "x1"), ("x0", "x1")),
+    "dims-dict-one": (2, "dims", {"x0": "u"}, ("u", "x1")),
+    "dims-dict-swap": (2, "dims", {"x0": "x1", "x1": "x0"}, ("x1", "x0")),
+    "dims-dict-chain": (3, "dims", {"x0": "x1", "x1": "w"}, ("x1", "w", "x2")),
+    "dims-tuple-duplicate": (2, "dims", ("u", "u"), None),
+    "dims-dict-collision": (2, "dims", {"x0": "x1"}, None),
+    "dims-tuple-too-short": (2, "dims", ("u",), None),
+    "dims-tuple-empty-name": (2, "dims", ("u", ""), None),
+    "set_axis-name-fresh-inplace": (2, "set_axis-inplace", ("u", 0), ("u", "x1")),
+    "set_axis-name-fresh-copy": (2, "set_axis-copy", ("u", 1), ("x0", "u")),
+    "set_axis-name-own-copy": (2, "set_axis-copy", ("x1", 1), ("x0", "x1")),
+    "set_axis-name-collision-inplace": (2, "set_axis-inplace", ("x1", 0), None),
+    "set_axis-name-collision-copy": (2, "set_axis-copy", ("x0", "x1"), None),
+    "axis-name-setter-fresh": (2, "axis-name", ("u", 0), ("u", "x1")),
+    "axis-name-setter-collision": (2, "axis-name", ("x1", 0), None),
+}
+
+
+class Rename(Contract):
+    """Renaming dimensions -- a.dims = names (tuple / list: all at once, so that a permutation of the present names is a
+    permutation; dict: old -> new), a.set_axis(name=..., axis=..., inplace=...), a.axes[i].name = n --: either the request
+    names every dimension with distinct non-empty strings, and then the array (the returned copy for inplace=False) is
+    well-formed with exactly the requested names in order, its labels, values and metadata as they were; or it does not
+    (a duplicate, a collision with another dimension, an empty name, a wrong count), and then an exception is raised and
+    the array is still well-formed with its labels, values and metadata -- no array with duplicate dimension names is ever
+    produced.  Names are concrete; the code
+    under them is loop-free over the dimensions, so the case list is a complete analysis for ranks 2-3.  [C05]"""
+    target = "dimarray.core.bases:AbstractHasAxes._set_dims"
+    props = ("C05",)
+    inlined = ("dims.fset", "DimArray.set_axis", "Axis.set", "Axis.name.fset", "DimArray.copy")
+
+    def cases(self, tier):
+        for name, (rank, how, arg, want) in RENAMES.items():
+            yield {"name": name, "rank": rank, "how": how}
+
+    def bound_lengths(self, case):
+        return ["lab%d.n" % d for d in range(case["rank"])]
+
+    def setup(self, S, case):
+        rank = case["rank"]
+        labs = _labels(S, rank)
+        data = S.arraynd("data", "f", tuple(S.n(l) for l in labs))
+        arr = S.da.DimArray(data, axes=[S.da.Axis(l, "x%d" % d) for d, l in enumerate(labs)])
+        arr.attrs["units"] = "K"
+        return {"arr": arr, "labels": labs, "data": data, "old": S.snapshot(data)}
+
+    def call(self, fn, env):
+        case, arr = env["case"], env["arr"]
+        rank, how, arg, want = RENAMES[case["name"]]
+        if how == "dims":
+            arr.dims = arg
+            return arr
+        if how == "set_axis-inplace":
+            r = arr.set_axis(name=arg[0], axis=arg[1])
+            env["returned"] = r
+            return arr
+        if how == "set_axis-copy":
+            return arr.set_axis(name=arg[0], axis=arg[1], inplace=False)
+        arr.axes[arg[1]].name = arg[0]
+        return arr
+
+    def raises(self, S, case, env):
+        want = RENAMES[case["name"]][3]
+        return {Exception: want is None}
+
+    def _as_it_was(self, S, case, env):
+        arr, labs = env["arr"], env["labels"]
+        rank = case["rank"]
+        return S.land(tuple(arr.dims) == tuple("x%d" % d for d in range(rank)), arr.values is env["data"], dict(arr.attrs) == {"units": "K"},
+                      S.forall_nd(S.shape(env["old"]), lambda *p: S.same(S.at(arr.values, *p), S.at(env["old"], *p))),
+                      *[S.land(S.n(arr.axes[d].values) == S.n(labs[d]), S.forall(0, S.n(labs[d]), lambda k, d=d: S.at(arr.axes[d].values, k) == S.at(labs[d], k)))
+                        for d in range(rank)])
+
+    def post(self, S, case, env, result):
+        rank, how, arg, want = RENAMES[case["name"]]
+        labs = env["labels"]
+        yield "is-dimarray", S.is_dimarray(result)
+        for c in wf_clauses(S, result):
+            yield c
+        if want is None:
+            return          # (the request had to be rejected: reported by the raises clause; what was produced instead is judged above)
+        yield "dims-are-exactly-the-requested-names-in-order", tuple(result.dims) == tuple(want)
+        yield "labels-values-metadata-as-they-were", S.land(
+            dict(result.attrs) == {"units": "K"},
+            S.forall_nd(S.shape(env["old"]), lambda *p: S.same(S.at(result.values, *p), S.at(env["old"], *p))),
+            *[S.land(S.n(result.axes[d].values) == S.n(labs[d]), S.forall(0, S.n(labs[d]), lambda k, d=d: S.at(result.axes[d].values, k) == S.at(labs[d], k)))
+              for d in range(rank)])
+        if how == "set_axis-copy":
+            yield "inplace=False:receiver-as-it-was", S.land(result is not env["arr"], self._as_it_was(S, case, env))
+        elif how == "set_axis-inplace":
+            yield "in-place-returns-none", env["returned"] is None
+
+    def post_exc(self, S, case, env, exc):
+        # (the statement asks that no ill-formed array exists, not that a refused request is atomic: which of the valid names
+        # of a refused request were already applied is left open)
+        arr, labs = env["arr"], env["labels"]
+        yield "rejected-request-leaves-a-well-formed-array", well_formed(S, arr)
+        yield "rejected-request-leaves-labels-values-metadata-as-they-were", S.land(
+            arr.values is env["data"], dict(arr.attrs) == {"units": "K"},
+            S.forall_nd(S.shape(env["old"]), lambda *p: S.same(S.at(arr.values, *p), S.at(env["old"], *p))),
+            *[S.land(S.n(arr.axes[d].values) == S.n(labs[d]), S.forall(0, S.n(labs[d]), lambda k, d=d: S.at(arr.axes[d].values, k) == S.at(labs[d], k)))
+              for d in range(case["rank"])])
+
+    def canaries(self, S, case, env, result):
+        yield "first-dimension-is-empty", S.n(result.axes[0].values) == 0
